@@ -38,4 +38,8 @@ Definition entries : list (Z * (data -> data)) :=
     (* 1503: (ops k) -> the files after a kill at operation k *)
     (1503, fun d => e_files (crash fs0 (dmap d_op (dnth 0 d)) (dnat (dnth 1 d))));
     (* 1504: (finished files) -> ok_survivors *)
-    (1504, fun d => ebool (ok_survivors (dmap dZ (dnth 0 d)) (d_files (dnth 1 d)))) ].
+    (1504, fun d => ebool (ok_survivors (dmap dZ (dnth 0 d)) (d_files (dnth 1 d))));
+    (* 1505: (finished new-finished files-before files-after) -> (ok clause) : the restart clause *)
+    (1505, fun d => let fin := dmap dZ (dnth 0 d) in let nf := dmap dZ (dnth 1 d) in
+                    let b := d_files (dnth 2 d) in let a := d_files (dnth 3 d) in
+                    L [ebool (ok_restart fin nf b a); I (clause_restart fin nf b a)]) ].
